@@ -70,6 +70,7 @@ type NodeCfg struct {
 	QueueSize     int  // single sequencer queue bound (0 = repo default 1000)
 	ScriptedSeq   bool // use the scripted sequencing double instead of the real single sequencer
 	MempoolTTL    uint64
+	DA            *SimDA // nil: the world's DA layer
 }
 
 // World is one simulated deployment: one DA layer, one genesis, several nodes.
@@ -228,6 +229,14 @@ func (n *Node) config() config.Config {
 	return c
 }
 
+// DAOf returns the DA layer this node talks to.
+func (n *Node) DAOf() *SimDA {
+	if n.Cfg.DA != nil {
+		return n.Cfg.DA
+	}
+	return n.W.DA
+}
+
 // StartNode boots a new incarnation on whatever is durable: real NewManager, real sequencer reload, real reaper.
 func (n *Node) StartNode() error {
 	if n.Alive {
@@ -244,7 +253,7 @@ func (n *Node) StartNode() error {
 	n.MainKV = ktds.Wrap(handle, ktds.PrefixTransform{Prefix: ds.NewKey("0")})
 	n.Store = store.New(n.MainKV)
 	exec := n.Exec.For(n.Fence)
-	da := n.W.DA.For(n.Cfg.Name, n.Fence)
+	da := n.DAOf().For(n.Cfg.Name, n.Fence)
 	logger := logging.Logger("verif")
 	var sg signer.Signer
 	if n.Cfg.Aggregator {
@@ -418,10 +427,10 @@ func (n *Node) Include() error {
 func (n *Node) Retrieve() {
 	n.M.VerifSignalRetrieve()
 	n.runLoop("retrieve", func(ctx context.Context, _ chan<- error) { n.M.RetrieveLoop(ctx) }, func() bool {
-		before := n.W.DA.NumCalls()
+		before := n.DAOf().NumCalls()
 		time.Sleep(110 * time.Millisecond)
 		synctest.Wait()
-		return n.W.DA.NumCalls() != before
+		return n.DAOf().NumCalls() != before
 	})
 	n.drain()
 }
